@@ -194,3 +194,44 @@ _add("C17",
 _add("C18",
      text="Further decided: the first-word clause - the loop compares the ordinal of the word-like token (enumerate over iter_word_likes) with 0 and the true edge of that test reaches the upper-casing store on every path; a comparison of a token position with 0 is refuted.",
      technique="provenance of the compared counter plus path check through the `||` lowering")
+
+
+# ---- second wave (rules added after seed rounds 2-4) ----
+_add("C01",
+     text="Also decided: VecExt::remove_indices contains no panicking operation (its callers do not all establish the sorted-queue assumption); a span bounded by a forward and a backward scan uses the same predicate for both (identical closures, or agreement on every character class either predicate distinguishes).",
+     technique="panic-free body rule; abstract evaluation of twin scan predicates over character classes")
+_add("C02",
+     text="Also decided: a str/String byte length becomes a token length only where that string is proved ASCII; the plain-English front end never removes a token after laying tokens end to end; where condense_spaces/condense_newlines test adjacency, the test compares the extended token's end with the swallowed token's start.",
+     technique="ASCII-evidence sanitizer on the byte-quantity taint; operation whitelist on the token vector; token-identity check of the adjacency comparison")
+_add("C03",
+     text="Also decided: no lint span derives from the payload of a token kind (Space(n), Newline(n)); no character is inserted at a loop-invariant position inside a loop of Suggestion::apply (a multi-character insertion would come out reversed).",
+     technique="payload-to-span taint; loop-invariance of insertion positions")
+_add("C04",
+     text="Also decided: the Literate Haskell line classifier, explored exhaustively over abstract line classes with the MIR of create_mask as transition function, agrees with the literate conventions (found and repaired the blank-line-in-code-environment defect).",
+     technique="explicit-state exploration of the masker's boolean state against a ghost automaton")
+_add("C05",
+     text="Also decided: no match_to_lint indexes the source directly - it reads the text through the matched tokens' spans only, so a clause's lints depend on the clause (what the chunk-cache key covers).",
+     technique="receiver whitelist for reads of `source` in match_to_lint bodies")
+_add("C06",
+     text="Also decided: the merged dictionary's two membership queries fold the same query over its children and nothing else.",
+     technique="sibling rule shared with C15")
+_add("C09",
+     text="Also decided: every path through publish_diagnostics reaches the notification (no 'client already has these' shortcut).",
+     technique="must-pass-through on publish_diagnostics")
+_add("C12",
+     text="Also decided: the same only-grows, adjacency and match_to_lint locality clauses as C02/C05.")
+_add("C14",
+     text="Also decided: the ignore hash uses a fixed-key hasher (never a RandomState or a container's own hasher); nothing reachable from LintContext::from_lint in the document module binary-searches the token vector (Markdown tokens are not in source order).",
+     technique="hasher provenance; who-may-call over the context construction")
+_add("C15",
+     text="Also decided: every definition of the answer of a _str query / an FST exact query is the plumbed result of the delegated query (no second source of answers); every return of edit_distance_min_alloc is the saturation constant or a table cell, and the cell update has the recurrence's shape.",
+     technique="exclusive answer provenance; shape rule on the distance kernel")
+_add("C16",
+     text="Also decided: ignore_lint/apply_suggestion build their Document with a constructor that takes self.dictionary; the serde form of every type in a Lint is symmetric - conditional attributes are decided exactly (skip_serializing_if against what a missing field reads as; container from/into through String evaluated for every variant over the MIR of the two conversions).",
+     technique="variant-table round trip by abstract evaluation of the conversion functions")
+_add("C17",
+     text="Also decided: NumberSuffix::from_chars answers only for exactly two characters (prover; found and repaired); no Document pass before condense_number_suffixes names the bare suffix words among the string constants it reaches; inside CorrectNumberSuffix::lint only suffix-present/right tests can route a number around the push.",
+     technique="prover entailment on slice length; call-graph reach with const/static edges; skip-edge classification of loop branches")
+_add("C19",
+     text="Also decided: Stats::read's record vector only ever receives push (file order is record order); a field skipped when writing must read back as the skipped value (default + is_empty, Option), otherwise refuted.",
+     technique="operation whitelist on the record vector; conditional serde attributes decided exactly")
